@@ -62,9 +62,32 @@ Print Assumptions C08_sum_balances.
 
 (* the denom, contract and alias indexes and the bank-metadata aliases describe the same set of pairs, over every
    history of register / toggle / alias update / removal of a pair whose contract self-destructed *)
-Theorem C08_indexes : forall ops s, idx_ok s -> idx_ok (isteps s ops).
+Theorem C08_indexes : forall ops, forallb no_export ops = true -> forall s, idx_ok s -> idx_ok (isteps s ops).
 Proof. exact indexes_consistent. Qed.
 Print Assumptions C08_indexes.
+
+(* ... and over EVERY history, genesis export + import included, the pair store, the denom index and the contract index
+   describe the same set of pairs *)
+Theorem C08_pair_indexes : forall ops s, pidx_ok s -> pidx_ok (isteps s ops).
+Proof. exact pair_indexes_consistent. Qed.
+Print Assumptions C08_pair_indexes.
+
+(* the unguarded reading of C08_indexes is false on the code as it is (genuine defect C08-2): a genesis export + import
+   loses the alias index while the bank metadata keeps the aliases; afterwards an alias of one denom can be registered
+   as an alias of another one.  The harness replays both on the real application. *)
+Theorem C08_indexes_export_import_refuted :
+  idx_ok i_empty /\ forallb no_export ex_export_hist = false /\
+  let s := isteps i_empty ex_export_hist in
+  ohas 10 (by_denom s) = true /\ In 11 (metal s 10) /\ oget 11 (alias s) = None /\ ~ idx_ok s.
+Proof. exact indexes_export_import_refuted. Qed.
+Print Assumptions C08_indexes_export_import_refuted.
+
+Theorem C08_alias_reusable_after_export_import :
+  let s := isteps i_empty ex_export_hist in
+  snd (istep s (IRegisterCoin 20 [11] 501)) = true /\
+  snd (istep (isteps i_empty [IRegisterCoin 10 [11; 12] 500]) (IRegisterCoin 20 [11] 501)) = false.
+Proof. exact alias_reusable_after_export_import. Qed.
+Print Assumptions C08_alias_reusable_after_export_import.
 
 (* mixed EVM transactions: if every token call and every conversion goes through the running EVM the books hold *)
 Theorem C08_mixed_running_evm : forall H p s, NoDup H -> In C H -> In Md H ->
